@@ -120,6 +120,23 @@ Fixpoint cp (t : dty) (n : N) (v : val) {struct v} : N * val * N :=
   end%N.
 End Copy.
 
+(* the members of a struct value, slot by slot *)
+Fixpoint cp_members (D : decls) (vs : list val) (fs : list dty) (n : N) : N * list val * N :=
+  match vs, fs with
+  | x :: vs', ft :: fs' => let '(n1, x', c1) := cp D ft n x in
+                           let '(n2, r, c2) := cp_members D vs' fs' n1 in (n2, x' :: r, (c1 + c2)%N)
+  | _, _ => (n, vs, 0%N)
+  end.
+
+(* DeepCopyInto of a type itself (not of a slot of that type): for a struct without hand-written
+   methods always "*out = *in" followed by the fix-up of every member -- the IsAssignable shortcut is
+   taken for slots only, so members with hand-written methods are copied by those methods here *)
+Definition cp_top (D : decls) (t : dty) (n : N) (v : val) : N * val * N :=
+  match resolve D (length D) t, v with
+  | RStruct false fs, VRec vs => let '(n1, vs', c) := cp_members D vs fs n in (n1, VRec vs', c)
+  | _, _ => cp D t n v
+  end.
+
 (* ---------- observations ---------- *)
 Fixpoint erase (v : val) : val :=
   match v with
@@ -207,7 +224,7 @@ Definition run_copy (inp : sexp) : option sexp :=
       match dlist d_decl ds, d_dty t, d_val v with
       | Some D, Some t, Some v =>
           let n := N.succ (max_id v) in
-          let '(_, v', c) := cp D t n v in
+          let '(_, v', c) := cp_top D t n v in
           Some (L [e_val (erase v');
                    elist (elist enum) (map snd (sort_by_key (map (fun p => (path_key p, p)) (shared n [] v'))));
                    enum c])
